@@ -3,6 +3,7 @@ package main
 import (
 	"encoding/json"
 	"fmt"
+	"math/big"
 	"math/rand"
 	"os"
 	"sort"
@@ -124,6 +125,27 @@ func (l *l16) scriptCascadeOverLoggedOutService(chain string) {
 		})
 }
 
+// scriptServiceFrozenBeforeItsChain: a service is frozen on its own (approved), then its appchain is frozen
+// (approved), then the chain's admin asks for the service's activation while the chain is still frozen: whatever
+// becomes of that request, the service of a frozen appchain stays unusable (probes are aimed at it).
+func (l *l16) scriptServiceFrozenBeforeItsChain(chain string) {
+	w := l.world
+	s1 := chain + ":s1"
+	l.script = append(l.script, func() (pb.Transaction, string, []string) {
+		return w.BVM(harness.AdminKey(0), harness.AddrService, "FreezeService", pb.String(s1), pb.String("r")), "FreezeService " + s1 + " (scripted)", []string{s1}
+	}, l.scriptApprove(1, s1, chain), l.scriptApprove(2, s1, chain), l.scriptApprove(3, s1, chain),
+		func() (pb.Transaction, string, []string) {
+			return w.BVM(harness.AdminKey(0), harness.AddrAppchain, "FreezeAppchain", pb.String(chain), pb.String("r")), "FreezeAppchain " + chain + " (scripted)", []string{chain}
+		}, l.scriptApprove(1, chain, chain), l.scriptApprove(2, chain, chain), l.scriptApprove(3, chain, chain),
+		func() (pb.Transaction, string, []string) {
+			return w.BVM(harness.ChainAdmin(chain), harness.AddrService, "ActivateService", pb.String(s1), pb.String("r")), "ActivateService " + s1 + " on the frozen chain (scripted)", []string{s1}
+		}, l.scriptApprove(0, s1, chain), l.scriptApprove(1, s1, chain), l.scriptApprove(2, s1, chain),
+		func() (pb.Transaction, string, []string) {
+			l.aimChain, l.aimN, l.aimSvc = chain, 8, s1
+			return nil, "", nil
+		})
+}
+
 // scriptNodeLogoutWhileAuditAdminBinds: an nvp node is registered, an audit admin bound to it is proposed (node
 // "binding"), then the node's logout is proposed: the admin's proposal is paused by that, votes on it are refused
 // and the node's fate is decided by its own proposal alone.
@@ -179,6 +201,39 @@ func (l *l16) scriptLogoutWhileFreezePending(chain string) {
 			l.aimChain, l.aimN, l.aimSvc = chain, 8, ""
 			return nil, "", nil
 		})
+}
+
+// scriptPoorAdminUpdatesBlackList: the admin of chainB gives its money away and then empties the black list of
+// chainB:s3 (which blocks chainA:s1 since the fixture) by a black-list-only update: the contract runs, posts its
+// service event, and the transaction fails at the fee - the stored record still blocks chainA:s1, and so must the
+// running node (probes are aimed at that pair). Later the admin is funded again.
+func (l *l16) scriptPoorAdminUpdatesBlackList() {
+	w := l.world
+	ca := harness.ChainAdmin(harness.ChainB)
+	svc := harness.ChainB + ":s3"
+	nothing := func() (pb.Transaction, string, []string) { return nil, "", nil }
+	l.script = append(l.script, func() (pb.Transaction, string, []string) {
+		bal := new(big.Int).Set(w.R.ViewL.GetBalance(ca.Addr))
+		w.R.ViewL.Clear()
+		if bal.Cmp(big.NewInt(20000000000)) <= 0 {
+			return nil, "", nil
+		}
+		return w.Transfer(ca, harness.User(3).Addr, new(big.Int).Sub(bal, big.NewInt(10000000000)).String()), "chainB's admin gives its money away (scripted)", nil
+	}, func() (pb.Transaction, string, []string) {
+		t, ok := w.PermitOnlyUpdate(ca, svc, "")
+		if !ok {
+			return nil, "", nil
+		}
+		if l.blSrcs == nil {
+			l.blSrcs = map[string][]string{}
+		}
+		l.blSrcs[svc] = append(l.blSrcs[svc], harness.ChainA+":s1")
+		l.blDst, l.blAim = svc, 4
+		l.w.Count("permit_only_updates_by_an_admin_who_cannot_pay", 1)
+		return t, "UpdateService(black list only) " + svc + " <- [] by an admin who cannot pay the fee (scripted)", []string{svc}
+	}, nothing, nothing, nothing, func() (pb.Transaction, string, []string) {
+		return w.Transfer(harness.User(3), ca.Addr, "500000000000000"), "chainB's admin is funded again (scripted)", nil
+	})
 }
 
 const happyRule = "0x00000000000000000000000000000000000000a2"
@@ -643,7 +698,14 @@ func lc16Case(w *vlog.W, a *wargs, id int, rng *rand.Rand, opts harness.Options)
 		l.scriptNodeLogoutWhileAuditAdminBinds()
 		l.shape["scripted:node-logout-while-audit-admin-binds"] = true
 	}
-	switch sc, chain := rng.Intn(6), []string{harness.ChainA, harness.ChainB, harness.ChainC}[rng.Intn(3)]; sc {
+	if rng.Intn(4) == 0 {
+		l.scriptPoorAdminUpdatesBlackList()
+		l.shape["scripted:black-list-update-by-an-admin-who-cannot-pay"] = true
+	}
+	switch sc, chain := rng.Intn(7), []string{harness.ChainA, harness.ChainB, harness.ChainC}[rng.Intn(3)]; sc {
+	case 6:
+		l.scriptServiceFrozenBeforeItsChain(chain)
+		l.shape["scripted:service-frozen-before-its-chain"] = true
 	case 0, 1:
 		l.scriptFrozenChainRuleChange(chain)
 		l.shape["scripted:rule-change-on-frozen-chain"] = true
